@@ -39,6 +39,7 @@ REQUIRED = {
     "divergence_sums_checked": 60,
     "nine_point_sums_checked": 40,
     "nine_point_periodicity_seen": 4,
+    "two_field_runs": 8,
     "simulation_steps_observed": 1500,
     "simulations": 60,
     "solvers_seen": 6,
@@ -190,7 +191,7 @@ def run_simulation_shard(spec, res: ShardResult, rng):
 
     backend = spec["backend"]
     for case_no in range(spec["cases"]):
-        eq_kind = "diffusion" if rng.random() < 0.5 else "cahn-hilliard"
+        eq_kind = str(rng.choice(["diffusion", "cahn-hilliard", "two-field"], p=[0.42, 0.42, 0.16]))
         gspec = gen.random_grid_spec(rng, sizes=(2, 3, 5, 8), max_cells=64, tame=True)
         grid = gen.make_grid(gspec)
         cls = gspec["cls"]
@@ -206,6 +207,20 @@ def run_simulation_shard(spec, res: ShardResult, rng):
             dt_stable = 0.2 / (D * lap_scale)
             bc = noflux_bc(gspec, rng)
             eq = pde.DiffusionPDE(diffusivity=D, bc=bc)
+        elif eq_kind == "two-field":
+            # expression PDE with two fields using the same operator name: field `a` is absorbed at
+            # the walls (operator-specific Dirichlet condition), field `b` diffuses with zero flux
+            # and is the conserved one; which of the two comes first is random
+            D = float(np.round(rng.uniform(0.2, 2), 2))
+            dt_stable = 0.2 / (max(D, 1.0) * lap_scale + 1)
+            bc = noflux_bc(gspec, rng)
+            names = stencils.axes_names(gspec)
+            absorbing = {n: ("periodic" if p else {"value": 0}) for n, p in zip(names, gen.grid_periodic(gspec))}
+            rhs = {"a": "laplace(a) - a", "b": f"{D} * laplace(b)"}
+            if rng.random() < 0.5:
+                rhs = dict(reversed(list(rhs.items())))
+            eq = pde.PDE(rhs, bc=bc, bc_ops={"a:laplace": absorbing})
+            conserved_index = list(rhs).index("b")
         else:
             dt_stable = 0.05 / (lap_scale * (1 + lap_scale))
             bc = noflux_bc(gspec, rng)
@@ -215,10 +230,15 @@ def run_simulation_shard(spec, res: ShardResult, rng):
         if large:
             res.count("large_dt_runs")
         state = pde.ScalarField(grid, steep_field(rng, shape) * (0.3 if eq_kind == "cahn-hilliard" else 1.0))
+        if eq_kind == "two-field":
+            state = pde.FieldCollection([pde.ScalarField(grid, steep_field(rng, shape)), state])
+            res.count("two_field_runs")
         V = np.broadcast_to(np.asarray(grid.cell_volumes, dtype=float), shape)
         record = []
 
         def observe(s, t):
+            if eq_kind == "two-field":
+                s = s[conserved_index]
             record.append((float(t), float(s.integral), float((V * np.abs(s.data)).sum()), float(np.abs(s.data).max())))
 
         tracker = pde.trackers.CallbackTracker(observe, interrupts=dt)
@@ -247,7 +267,7 @@ def run_simulation_shard(spec, res: ShardResult, rng):
                 res.count("overflowing_runs_truncated")
                 break
             res.count("simulation_steps_observed")
-            rate_scale = (1.0 if eq_kind == "diffusion" else (1 + umax**2) * (1 + lap_scale)) * lap_scale * (D if eq_kind == "diffusion" else 1.0)
+            rate_scale = (1.0 if eq_kind != "cahn-hilliard" else (1 + umax**2) * (1 + lap_scale)) * lap_scale * (D if eq_kind != "cahn-hilliard" else 1.0)
             per_step = 64 * EPS * absint + dt * 1024 * EPS * absint * rate_scale
             running = per_step if n == 0 else max(running, per_step)
             budget = (n + 2) * running * (4 if solver == "scipy" else 1) * 8
